@@ -391,7 +391,7 @@ impl Ctx {
                     match back {
                         Some((p, true)) => {
                             v = p;
-                            multiqueue2::verif_hooks::spin_loop();
+                            rt::harness_spin(1);
                         }
                         _ => return true,
                     }
@@ -457,7 +457,7 @@ impl Ctx {
                 }
                 match r {
                     Res::Val(_) => {}
-                    Res::Empty => multiqueue2::verif_hooks::spin_loop(),
+                    Res::Empty => rt::harness_spin(2),
                     _ => return true,
                 }
             },
